@@ -175,7 +175,7 @@ theorem singleAlpha_exact (A a round floor ceil : Nat) (h : (singleAlpha A a rou
     omega
   · simp [hg] at h
 
-/-- for `a = 255` the guard admits exactly the all-ones endpoint: 63 in mode 4 (6 bits), 255 in mode 5 (8 bits) -/
+/-- for `a = 255` the guard allows exactly the all-ones endpoint: 63 in mode 4 (6 bits), 255 in mode 5 (8 bits) -/
 theorem singleAlpha_opaque_guard :
     (∀ round, round < 64 → (promoteAlpha 6 round = 255 ↔ round = 63)) ∧
     (∀ round, round < 256 → (promoteAlpha 8 round = 255 ↔ round = 255)) := by
